@@ -133,6 +133,7 @@ func verifVFSDel(name string) { verifos.Remove(name) }
 func verifTask(name string, notification bool) {}
 func verifSched(explore bool)                     {}
 func verifMapOrder(explore bool)                  {}
+func verifLockBusy(busy bool)                     {}
 `
 
 type replayCase struct {
